@@ -320,16 +320,28 @@ def _shape_worker(args):
     rows = []
     for i in range(levels):
         n = n0 * (2 ** i)
-        data = gen(n)
+        try:
+            data = gen(n)
+        except (OverflowError, ValueError):     # the shape has reached the largest size its length fields can express
+            acc.count('shapes_stopped_at_field_maximum')
+            break
         steps, depth, outcome = measure(cls, data, 40)
         rows.append((n, len(data), steps, depth, outcome))
         acc.counters['transitions'] = acc.counters.get('transitions', 0) + 1
         acc.state(core.h64(cname, shape, n))
-        if outcome in ('timeout', 'recursion'):
+        if outcome == 'recursion':
             acc.violation('%s:%s:%s' % (cname, shape, outcome), '%s on %s/%s with %d input bytes' % (outcome, cname, shape, len(data)),
                           {'kind': 'shape', 'cls': cname, 'shape': shape, 'rows': rows})
             return acc.result()
+        if outcome == 'timeout':
+            # the wall-clock limit of one measurement depends on machine load; the property is about *steps*: the
+            # steps counted until the limit are judged by the growth clauses below like any other row, and the size
+            # is reported as not fully measured
+            acc.count('measurements_cut_by_time_limit')
+            break
     w = {'kind': 'shape', 'cls': cname, 'shape': shape, 'rows': rows}
+    if len(rows) < 2:
+        return acc.result()
     if shape.startswith('declared'):
         base = rows[0][2]
         for n, ln, steps, depth, outcome in rows[1:]:
@@ -416,6 +428,9 @@ def run(ctx):
     ctx.pmap(_shape_worker, [(i, levels) for i in range(len(shapes))])
     fitems = [(classes.qualname(c), not ctx.quick) for c in classes.parse_entry_classes()]
     ctx.pmap(_fuzz_worker, fitems)
+    if ctx.counters.get('measurements_cut_by_time_limit'):
+        ctx.cap('%d size rows cut by the 40 s wall-clock limit of one measurement (their steps up to the cut were '
+                'judged; larger sizes of those shapes were not run)' % ctx.counters['measurements_cut_by_time_limit'])
     ctx.assumptions += ['a step is one sys.monitoring LINE event; work inside a single C-level call (slicing, bytes() '
                         'copies) is not counted - by the property\'s own definition of a step',
                         'finite grid: growth that only appears above the largest enumerated size is not seen',
